@@ -1,10 +1,532 @@
-(* Proofs about model/Meta.v (C06). *)
+(* Proofs about model/Meta.v (C06): invariants of every schedule. *)
 From Coq Require Import List NArith Bool Arith Lia.
 From NSQV Require Import model.Judge model.Names model.Meta.
 Import ListNotations.
 Open Scope nat_scope.
 Open Scope bool_scope.
 
-Lemma persist_ops_shape : forall tmp,
-  persist_ops tmp = [FOpen tmp; FWrite tmp; FFsync tmp; FClose tmp; FRename tmp].
+(* ------------------------------------------------------------------ names *)
+Lemma list_eqb_N_eq : forall a b : list N, list_eqb N.eqb a b = true <-> a = b.
+Proof.
+  induction a as [|x a IH]; destruct b as [|y b]; cbn; split; intro H; try reflexivity; try discriminate.
+  - apply andb_true_iff in H. destruct H as [H1 H2]. apply N.eqb_eq in H1. apply IH in H2. congruence.
+  - inversion H; subst. rewrite N.eqb_refl. cbn. apply IH. reflexivity.
+Qed.
+
+Lemma name_eqb_eq : forall a b, name_eqb a b = true <-> a = b.
+Proof. intros. unfold name_eqb, bytes_eqb. apply list_eqb_N_eq. Qed.
+
+Lemma name_eqb_refl : forall a, name_eqb a a = true.
+Proof. intros. apply name_eqb_eq. reflexivity. Qed.
+
+Lemma name_eqb_neq : forall a b, name_eqb a b = false <-> a <> b.
+Proof.
+  intros. split; intro H.
+  - intro E. apply name_eqb_eq in E. congruence.
+  - destruct (name_eqb a b) eqn:E; [apply name_eqb_eq in E; contradiction|reflexivity].
+Qed.
+
+Lemma is_topic_spec : forall g n t, is_topic g n t = true <-> t_id t = g /\ t_name t = n.
+Proof.
+  intros. unfold is_topic. rewrite andb_true_iff, N.eqb_eq, name_eqb_eq. tauto.
+Qed.
+
+(* ------------------------------------------------------------------ schedules *)
+Lemma run_app : forall a b s, run s (a ++ b) = run (run s a) b.
+Proof. intros. unfold run. apply fold_left_app. Qed.
+
+Lemma run_snoc : forall a e s, run s (a ++ [e]) = step (run s a) e.
+Proof. intros. rewrite run_app. reflexivity. Qed.
+
+Lemma run_invariant (P : st -> Prop) :
+  (forall s e, P s -> P (step s e)) -> forall evs s, P s -> P (run s evs).
+Proof.
+  intros Hs evs. induction evs as [|e r IH]; intros s H; cbn; [assumption|].
+  apply IH. apply Hs. assumption.
+Qed.
+
+(* ------------------------------------------------------------------ live-state helpers *)
+Definition idname (t : topic) : N * name := (t_id t, t_name t).
+Definition keeps_idname (f : topic -> topic) : Prop := forall t, t_id (f t) = t_id t /\ t_name (f t) = t_name t.
+
+Lemma keeps_set_chans : forall cs, keeps_idname (set_chans cs).
+Proof. intros cs t. split; reflexivity. Qed.
+Lemma keeps_set_chans_f : forall (h : topic -> list chan), keeps_idname (fun t => set_chans (h t) t).
+Proof. intros h t. split; reflexivity. Qed.
+Lemma keeps_set_tpaused : forall b, keeps_idname (set_tpaused b).
+Proof. intros b t. split; reflexivity. Qed.
+Lemma keeps_set_texiting : keeps_idname set_texiting.
+Proof. intros t. split; reflexivity. Qed.
+
+Lemma keep_topic_f : forall f t, keeps_idname f -> keep_topic (f t) = keep_topic t.
+Proof. intros f t H. unfold keep_topic. destruct (H t) as [_ ->]. reflexivity. Qed.
+
+Lemma is_topic_f : forall f g n t, keeps_idname f -> is_topic g n (f t) = is_topic g n t.
+Proof. intros f g n t H. unfold is_topic. destruct (H t) as [-> ->]. reflexivity. Qed.
+
+Lemma filter_map_comm {A} (p : A -> bool) (F : A -> A) (l : list A) :
+  (forall x, p (F x) = p x) -> filter p (map F l) = map F (filter p l).
+Proof.
+  intros H. induction l as [|x l IH]; cbn; [reflexivity|].
+  rewrite H. destruct (p x); cbn; rewrite IH; reflexivity.
+Qed.
+
+Lemma upd_topic_filter : forall g n f l, keeps_idname f ->
+  filter keep_topic (upd_topic g n f l) = upd_topic g n f (filter keep_topic l).
+Proof.
+  intros. unfold upd_topic. apply filter_map_comm. intros t.
+  destruct (is_topic g n t); [apply keep_topic_f; assumption|reflexivity].
+Qed.
+
+Lemma idname_upd : forall g n f l, keeps_idname f ->
+  map idname (filter keep_topic (upd_topic g n f l)) = map idname (filter keep_topic l).
+Proof.
+  intros. rewrite upd_topic_filter by assumption. unfold upd_topic. rewrite map_map.
+  apply map_ext. intros t. destruct (is_topic g n t); [|reflexivity].
+  unfold idname. destruct (H t) as [-> ->]. reflexivity.
+Qed.
+
+Lemma get_topic_upd : forall g n f g' n' l, keeps_idname f ->
+  get_topic g' n' (upd_topic g n f l) =
+  option_map (fun t => if is_topic g n t then f t else t) (get_topic g' n' l).
+Proof.
+  intros. unfold get_topic, upd_topic. induction l as [|t l IH]; cbn; [reflexivity|].
+  assert (E : is_topic g' n' (if is_topic g n t then f t else t) = is_topic g' n' t).
+  { destruct (is_topic g n t); [apply is_topic_f; assumption|reflexivity]. }
+  rewrite E. destruct (is_topic g' n' t); [reflexivity|apply IH].
+Qed.
+
+Lemma get_topic_some : forall g n l t, get_topic g n l = Some t -> In t l /\ t_id t = g /\ t_name t = n.
+Proof.
+  intros. unfold get_topic in H. apply find_some in H. destruct H as [H1 H2].
+  apply is_topic_spec in H2. tauto.
+Qed.
+
+Lemma get_topic_in : forall l t, In t l -> exists t', get_topic (t_id t) (t_name t) l = Some t'.
+Proof.
+  intros. unfold get_topic. destruct (find (is_topic (t_id t) (t_name t)) l) eqn:E; [eauto|].
+  exfalso. eapply find_none in E; [|exact H]. assert (is_topic (t_id t) (t_name t) t = true) by (apply is_topic_spec; auto).
+  congruence.
+Qed.
+
+(* ------------------------------------------------------------------ files *)
+Lemma lookup_upsert_same : forall k v m, lookup k (upsert k v m) = Some v.
+Proof.
+  induction m as [|[k' v'] m IH]; cbn.
+  - rewrite N.eqb_refl. reflexivity.
+  - destruct (N.eqb k' k) eqn:E; cbn.
+    + rewrite N.eqb_refl. reflexivity.
+    + rewrite E. exact IH.
+Qed.
+
+(* ------------------------------------------------------------------ C06_atomic: the file invariant *)
+Definition entry_from (H : list live) (e : dtopic) : Prop :=
+  exists L t, In L H /\ In t L /\ keep_topic t = true /\ e = snap_topic t.
+Definition from_hist (H : list live) (d : doc) : Prop :=
+  (exists L, In L H /\ map dt_name d = map t_name (filter keep_topic L)) /\
+  (forall e, In e d -> entry_from H e).
+
+Lemma entry_from_mono : forall H x e, entry_from H e -> entry_from (x :: H) e.
+Proof. intros H x e (L & t & ? & ? & ? & ?). exists L, t. cbn. auto. Qed.
+Lemma from_hist_mono : forall H x d, from_hist H d -> from_hist (x :: H) d.
+Proof.
+  intros H x d [(L & HL & E) F]. split.
+  - exists L. cbn. auto.
+  - intros e He. apply entry_from_mono. auto.
+Qed.
+
+Definition job_ok (s : st) (j : job) : Prop :=
+  match j_phase j with
+  | PSnap =>
+      map fst (j_slots j) = map idname (filter keep_topic (live_ s)) /\
+      (forall g n e, In (g, n, Some e) (j_slots j) -> dt_name e = n /\ entry_from (hist s) e)
+  | PWrite =>
+      exists c, lookup (j_tmp j) (tmps (fs s)) = Some c /\ f_doc c = j_doc j /\ from_hist (hist s) (j_doc j)
+  | PFsync =>
+      exists c, lookup (j_tmp j) (tmps (fs s)) = Some c /\ f_doc c = j_doc j /\ complete c = true /\
+                from_hist (hist s) (j_doc j)
+  | PClose | PRename =>
+      exists c, lookup (j_tmp j) (tmps (fs s)) = Some c /\ f_doc c = j_doc j /\ complete c = true /\
+                f_synced c = true /\ from_hist (hist s) (j_doc j)
+  end.
+
+Definition dat_ok (s : st) : Prop :=
+  forall c, dat (fs s) = Some c -> complete c = true /\ f_synced c = true /\ from_hist (hist s) (f_doc c).
+
+Record Inv1 (s : st) : Prop := {
+  i1_broken : broken s = false;
+  i1_hist : up s = true -> exists r, hist s = live_ s :: r;
+  i1_dat : dat_ok s;
+  i1_job : forall j, lock s = Some j -> up s = true /\ job_ok s j;
+  i1_down : up s = false -> lock s = None /\ threads s = [] /\ pending s = 0
+}.
+
+Lemma Inv1_init : Inv1 init.
+Proof.
+  constructor; cbn; try reflexivity; try discriminate; auto.
+Qed.
+
+(* what one micro-step can do to the components the file invariant looks at *)
+Definition live_step (s s' : st) : Prop :=
+  (live_ s' = live_ s /\ hist s' = hist s) \/
+  (hist s' = live_ s' :: hist s /\
+   (lock s <> None -> map idname (filter keep_topic (live_ s')) = map idname (filter keep_topic (live_ s)))).
+
+Definition exec_shape (s s' : st) (i : N) : Prop :=
+  up s' = up s /\ broken s' = broken s /\ fs s' = fs s /\ live_step s s' /\
+  (lock s' = lock s \/ (lock s = None /\ lock s' = Some (new_job (Some i) (live_ s) (length (hist s))) /\
+                        live_ s' = live_ s /\ hist s' = hist s)).
+
+Ltac shape_same := unfold exec_shape, live_step; cbn; repeat split; auto.
+Ltac shape_upd :=
+  unfold exec_shape, live_step; cbn; repeat split; auto; right; split; [reflexivity|];
+  intros _; apply idname_upd;
+  first [apply keeps_set_chans | apply keeps_set_chans_f | apply keeps_set_tpaused | apply keeps_set_texiting].
+
+Lemma spawn_fields : forall b s,
+  up (spawn b s) = up s /\ broken (spawn b s) = broken s /\ fs (spawn b s) = fs s /\
+  live_ (spawn b s) = live_ s /\ hist (spawn b s) = hist s /\ lock (spawn b s) = lock s /\
+  threads (spawn b s) = threads s /\ next_id (spawn b s) = next_id s /\ acks (spawn b s) = acks s /\
+  dat_lo (spawn b s) = dat_lo s.
+Proof. intros [] s; cbn; repeat split; reflexivity. Qed.
+
+Lemma exec_shape_holds : forall pad s i m rest, exec_shape s (exec pad s i m rest) i.
+Proof.
+  intros pad s i m rest. destruct m; cbn [exec].
+  - destruct (lock_free s); shape_same.
+  - shape_same.
+  - unfold lock_free. destruct (lock s) eqn:EL; [shape_same; rewrite EL; auto|].
+    destruct (find_topic t (live_ s)); [shape_same; rewrite EL; auto|].
+    destruct (eph t); unfold exec_shape, live_step; cbn; repeat split; auto;
+      right; (split; [reflexivity|]); intros Hc; rewrite EL in Hc; congruence.
+  - destruct (get_topic g t (live_ s)) as [tp|]; [|destruct (eph c); shape_same].
+    destruct (find_chan c (t_chans tp)); [shape_same|].
+    destruct (eph c); shape_upd.
+  - destruct (get_topic g t (live_ s)) as [tp|]; [|shape_same].
+    destruct (t_exiting tp); [shape_same|].
+    destruct (eph t); shape_upd.
+  - destruct (get_topic g t (live_ s)) as [tp|]; [|shape_same]. shape_upd.
+  - unfold lock_free. destruct (lock s) eqn:EL; [shape_same; rewrite EL; auto|].
+    unfold exec_shape, live_step; cbn; repeat split; auto.
+    right; (split; [reflexivity|]); intros Hc; rewrite EL in Hc; congruence.
+  - destruct (get_topic g t (live_ s)) as [tp|]; [|shape_same].
+    destruct (find (is_chan h c) (t_chans tp)) as [ch|]; [|shape_same].
+    destruct (c_exiting ch); [shape_same|]. destruct (eph c); shape_upd.
+  - shape_upd.
+  - shape_upd.
+  - shape_upd.
+  - unfold lock_free. destruct (lock s) eqn:EL; [shape_same; rewrite EL; auto|].
+    unfold exec_shape, live_step; cbn; repeat split; auto.
+  - shape_same.
+  - shape_same.
+Qed.
+
+(* ---- slots *)
+Lemma fill_fst : forall l i sl, map fst (fill l i sl) = map fst sl.
+Proof.
+  intros l i sl. revert i. induction sl as [|x r IH]; intros i; [destruct i; reflexivity|].
+  destruct i; cbn.
+  - f_equal. destruct x as [[g n] o]. cbn. destruct (get_topic g n l); reflexivity.
+  - f_equal. apply IH.
+Qed.
+
+Lemma fill_in : forall l i sl g n e, In (g, n, Some e) (fill l i sl) ->
+  In (g, n, Some e) sl \/ (In (g, n) (map fst sl) /\ (g, n, Some e) = read_slot l (g, n, None)).
+Proof.
+  intros l i sl. revert i. induction sl as [|x r IH]; intros i g n e H; [destruct i; contradiction|].
+  destruct i; cbn in H.
+  - destruct H as [H|H]; [|left; right; exact H].
+    destruct x as [[g0 n0] o]. right. cbn [read_slot] in H.
+    assert (g0 = g /\ n0 = n) as [-> ->].
+    { destruct (get_topic g0 n0 l); inversion H; auto. }
+    split; [left; reflexivity|]. cbn [read_slot]. symmetry. exact H.
+  - destruct H as [H|H]; [left; left; exact H|].
+    destruct (IH _ _ _ _ H) as [H1|[H1 H2]]; [left; right; exact H1|right; split; [right; exact H1|exact H2]].
+Qed.
+
+Lemma first_unread_none : forall sl, first_unread sl = None -> forall x, In x sl -> unread x = false.
+Proof.
+  induction sl as [|y r IH]; intros H x Hx; [contradiction|]. cbn in H.
+  destruct (unread y) eqn:E; [discriminate|].
+  destruct (first_unread r); [discriminate|]. destruct Hx as [->|Hx]; [exact E|apply IH; auto].
+Qed.
+
+Lemma slot_doc_names : forall sl,
+  (forall x, In x sl -> unread x = false) ->
+  (forall g n e, In (g, n, Some e) sl -> dt_name e = n) ->
+  map dt_name (slot_doc sl) = map (fun x => snd (fst x)) sl.
+Proof.
+  induction sl as [|[[g n] o] r IH]; intros H1 H2; [reflexivity|].
+  cbn. destruct o as [e|].
+  - cbn. f_equal.
+    + apply (H2 g n e). left. reflexivity.
+    + apply IH; intros; [apply H1; right; assumption|eapply H2; right; eassumption].
+  - specialize (H1 (g, n, None) (or_introl eq_refl)). discriminate.
+Qed.
+
+Lemma slot_doc_in : forall sl e, In e (slot_doc sl) -> exists g n, In (g, n, Some e) sl.
+Proof.
+  induction sl as [|[[g n] o] r IH]; intros e H; [contradiction|].
+  cbn in H. apply in_app_or in H. destruct H as [H|H].
+  - destruct o as [e'|]; [|contradiction]. destruct H as [->|[]]. exists g, n. left. reflexivity.
+  - destruct (IH _ H) as (g' & n' & H'). exists g', n'. right. exact H'.
+Qed.
+
+Lemma slots_new : forall l, map fst (map slot_of l) = map idname l.
+Proof. intros. rewrite map_map. reflexivity. Qed.
+
+Lemma slots_new_unfilled : forall l g n e, ~ In (g, n, Some e) (map slot_of l).
+Proof. intros l g n e H. apply in_map_iff in H. destruct H as (t & H & _). discriminate. Qed.
+
+Lemma job_ok_new : forall s o lo, job_ok s (new_job o (live_ s) lo).
+Proof.
+  intros. unfold job_ok, new_job. cbn. split.
+  - apply slots_new.
+  - intros g n e H. exfalso. eapply slots_new_unfilled. exact H.
+Qed.
+
+(* job_ok only looks at live (through idname of the kept topics), hist (monotonically) and tmps *)
+Lemma job_ok_transfer : forall s s' j,
+  job_ok s j ->
+  map idname (filter keep_topic (live_ s')) = map idname (filter keep_topic (live_ s)) ->
+  (hist s' = hist s \/ exists x, hist s' = x :: hist s) ->
+  tmps (fs s') = tmps (fs s) ->
+  job_ok s' j.
+Proof.
+  intros s s' j H HL HH HT. unfold job_ok in *.
+  assert (M : forall d, from_hist (hist s) d -> from_hist (hist s') d).
+  { intros d Hd. destruct HH as [->|[x ->]]; [assumption|apply from_hist_mono; assumption]. }
+  assert (ME : forall e, entry_from (hist s) e -> entry_from (hist s') e).
+  { intros e He. destruct HH as [->|[x ->]]; [assumption|apply entry_from_mono; assumption]. }
+  destruct (j_phase j); rewrite ?HT.
+  - destruct H as [H1 H2]. split; [congruence|]. intros g n e Hin. destruct (H2 _ _ _ Hin). auto.
+  - destruct H as (c & ? & ? & ?). exists c. auto.
+  - destruct H as (c & ? & ? & ? & ?). exists c. auto.
+  - destruct H as (c & ? & ? & ? & ? & ?). exists c. repeat (split; [assumption|]). auto.
+  - destruct H as (c & ? & ? & ? & ? & ?). exists c. repeat (split; [assumption|]). auto.
+Qed.
+
+Lemma dat_ok_transfer : forall s s',
+  dat_ok s -> dat (fs s') = dat (fs s) -> (hist s' = hist s \/ exists x, hist s' = x :: hist s) -> dat_ok s'.
+Proof.
+  intros s s' H HD HH c Hc. rewrite HD in Hc. destruct (H c Hc) as (? & ? & ?).
+  repeat (split; [assumption|]). destruct HH as [->|[x ->]]; [assumption|apply from_hist_mono; assumption].
+Qed.
+
+Lemma Inv1_exec : forall pad s i m rest,
+  Inv1 s -> get_thread i (threads s) = Some (m :: rest) -> Inv1 (exec pad s i m rest).
+Proof.
+  intros pad s i m rest I Hth.
+  assert (Hup : up s = true).
+  { destruct (up s) eqn:E; [reflexivity|]. destruct (i1_down s I E) as (_ & Ht & _). rewrite Ht in Hth. discriminate. }
+  destruct (exec_shape_holds pad s i m rest) as (Eup & Ebr & Efs & Hlive & Hlock).
+  set (s' := exec pad s i m rest) in *.
+  assert (HH : hist s' = hist s \/ exists x, hist s' = x :: hist s).
+  { destruct Hlive as [[_ ->]|[-> _]]; [left; reflexivity|right; eauto]. }
+  constructor.
+  - rewrite Ebr. apply (i1_broken s I).
+  - intros _. destruct Hlive as [[E1 E2]|[E _]].
+    + rewrite E1, E2. apply (i1_hist s I Hup).
+    + eauto.
+  - eapply dat_ok_transfer; [apply (i1_dat s I)|rewrite Efs; reflexivity|exact HH].
+  - intros j Hj. rewrite Eup. split; [exact Hup|].
+    destruct Hlock as [E|(E0 & E1 & E2 & E3)].
+    + rewrite E in Hj. destruct (i1_job s I j Hj) as [_ Hok].
+      eapply job_ok_transfer; [exact Hok| |exact HH|rewrite Efs; reflexivity].
+      destruct Hlive as [[-> _]|[_ Hm]]; [reflexivity|]. apply Hm. congruence.
+    + rewrite E1 in Hj. inversion Hj; subst j. rewrite <- E2. apply job_ok_new.
+  - rewrite Eup, Hup. discriminate.
+Qed.
+
+Lemma in_idname_filter : forall g n l,
+  In (g, n) (map idname (filter keep_topic l)) ->
+  exists t, In t l /\ t_id t = g /\ t_name t = n /\ keep_topic t = true.
+Proof.
+  intros g n l H. apply in_map_iff in H. destruct H as (t & E & Hin).
+  apply filter_In in Hin. destruct Hin as [Hin Hk]. inversion E; subst. exists t. auto.
+Qed.
+
+Lemma read_slot_ok : forall s g n e,
+  (exists r, hist s = live_ s :: r) ->
+  In (g, n) (map idname (filter keep_topic (live_ s))) ->
+  (g, n, Some e) = read_slot (live_ s) (g, n, None) ->
+  dt_name e = n /\ entry_from (hist s) e /\ exists t, get_topic g n (live_ s) = Some t /\ e = snap_topic t.
+Proof.
+  intros s g n e [r Hr] Hin Hrd.
+  destruct (in_idname_filter _ _ _ Hin) as (t0 & Ht0 & Eg & En & Hk).
+  cbn [read_slot] in Hrd.
+  destruct (get_topic g n (live_ s)) as [t|] eqn:Eget.
+  - inversion Hrd; subst e. destruct (get_topic_some _ _ _ _ Eget) as (Hin' & Eg' & En').
+    split; [exact En'|]. split; [|exists t; auto].
+    exists (live_ s), t. rewrite Hr. split; [left; reflexivity|]. split; [exact Hin'|]. split; [|reflexivity].
+    unfold keep_topic in *. rewrite En'. rewrite <- En. exact Hk.
+  - exfalso. destruct (get_topic_in _ _ Ht0) as [t' Ht']. rewrite Eg, En in Ht'. congruence.
+Qed.
+
+Lemma complete_mk : forall d w b, complete (mkF d w b) = Nat.eqb w (doc_size d).
 Proof. reflexivity. Qed.
+
+Lemma Inv1_persist : forall s j k, Inv1 s -> lock s = Some j -> Inv1 (persist_step s j k).
+Proof.
+  intros s j k I Hl.
+  destruct (i1_job s I j Hl) as [Hup Hok].
+  destruct (i1_hist s I Hup) as [r Hr].
+  unfold persist_step. unfold job_ok in Hok.
+  destruct (j_phase j) eqn:Eph.
+  - (* PSnap *)
+    destruct Hok as [Hs Hf].
+    destruct (first_unread (j_slots j)) as [i0|] eqn:Efu.
+    + set (i := match nth_error (j_slots j) (N.to_nat k) with
+                | Some x => if unread x then N.to_nat k else i0 | None => i0 end).
+      constructor; cbn.
+      * apply (i1_broken s I).
+      * intros _. eauto.
+      * apply (i1_dat s I).
+      * intros j' Hj'. inversion Hj'; subst j'. split; [exact Hup|]. unfold job_ok. cbn.
+        split; [rewrite fill_fst; exact Hs|].
+        intros g n e Hin. destruct (fill_in _ _ _ _ _ _ Hin) as [Hold|[Hin' Hrd]].
+        -- apply (Hf g n e Hold).
+        -- rewrite Hs in Hin'. destruct (read_slot_ok s g n e (ex_intro _ r Hr) Hin' Hrd) as (? & ? & _). auto.
+      * rewrite Hup. discriminate.
+    + (* every topic read: marshal, open the temp file *)
+      pose proof (first_unread_none _ Efu) as Hall.
+      assert (Hnames : forall g n e, In (g, n, Some e) (j_slots j) -> dt_name e = n).
+      { intros g n e Hin. apply (Hf g n e Hin). }
+      constructor; cbn.
+      * apply (i1_broken s I).
+      * intros _. eauto.
+      * intros c Hc. apply (i1_dat s I c Hc).
+      * intros j' Hj'. inversion Hj'; subst j'. split; [exact Hup|]. unfold job_ok. cbn.
+        exists (mkF (slot_doc (j_slots j)) 0 false). split; [apply lookup_upsert_same|]. split; [reflexivity|].
+        split.
+        -- exists (live_ s). split; [rewrite Hr; left; reflexivity|].
+           rewrite slot_doc_names by assumption.
+           transitivity (map snd (map fst (j_slots j))); [rewrite map_map; reflexivity|].
+           rewrite Hs. rewrite map_map. reflexivity.
+        -- intros e He. destruct (slot_doc_in _ _ He) as (g & n & Hin). apply (Hf g n e Hin).
+      * rewrite Hup. discriminate.
+  - (* PWrite *)
+    destruct Hok as (c & Hlk & Hdoc & Hfh). rewrite Hlk.
+    set (w := Nat.min (doc_size (f_doc c)) (f_written c + S (N.to_nat k))).
+    destruct (Nat.eqb w (doc_size (f_doc c))) eqn:Ew.
+    + constructor; cbn.
+      * apply (i1_broken s I).
+      * intros _. eauto.
+      * intros c' Hc'. apply (i1_dat s I c' Hc').
+      * intros j' Hj'. inversion Hj'; subst j'. split; [exact Hup|]. unfold job_ok. cbn.
+        exists (mkF (f_doc c) w false). split; [apply lookup_upsert_same|]. split; [exact Hdoc|].
+        split; [rewrite complete_mk; exact Ew|exact Hfh].
+      * rewrite Hup. discriminate.
+    + constructor; cbn.
+      * apply (i1_broken s I).
+      * intros _. eauto.
+      * intros c' Hc'. apply (i1_dat s I c' Hc').
+      * intros j' Hj'. rewrite Hl in Hj'. inversion Hj'; subst j'. split; [exact Hup|]. unfold job_ok. rewrite Eph. cbn.
+        exists (mkF (f_doc c) w false). split; [apply lookup_upsert_same|]. split; [exact Hdoc|exact Hfh].
+      * rewrite Hup. discriminate.
+  - (* PFsync *)
+    destruct Hok as (c & Hlk & Hdoc & Hc & Hfh). rewrite Hlk.
+    constructor; cbn.
+    + apply (i1_broken s I).
+    + intros _. eauto.
+    + intros c' Hc'. apply (i1_dat s I c' Hc').
+    + intros j' Hj'. inversion Hj'; subst j'. split; [exact Hup|]. unfold job_ok. cbn.
+      exists (mkF (f_doc c) (f_written c) true). split; [apply lookup_upsert_same|]. split; [exact Hdoc|].
+      split; [exact Hc|]. split; [reflexivity|exact Hfh].
+    + rewrite Hup. discriminate.
+  - (* PClose *)
+    destruct Hok as (c & Hlk & Hdoc & Hc & Hsy & Hfh).
+    constructor; cbn.
+    + apply (i1_broken s I).
+    + intros _. eauto.
+    + intros c' Hc'. apply (i1_dat s I c' Hc').
+    + intros j' Hj'. inversion Hj'; subst j'. split; [exact Hup|]. unfold job_ok. cbn.
+      exists c. repeat (split; [assumption|]). exact Hfh.
+    + rewrite Hup. discriminate.
+  - (* PRename *)
+    destruct Hok as (c & Hlk & Hdoc & Hc & Hsy & Hfh). rewrite Hlk.
+    set (s1 := w_lo (w_lock (w_fs s (mkFS (Some c) (delete (j_tmp j) (tmps (fs s))))) None) (j_lo j)).
+    assert (I1 : Inv1 s1).
+    { constructor; cbn.
+      - apply (i1_broken s I).
+      - intros _. eauto.
+      - intros c' Hc'. inversion Hc'; subst c'. rewrite Hdoc. auto.
+      - discriminate.
+      - rewrite Hup. discriminate. }
+    assert (Hth : forall ths, Inv1 (w_threads s1 ths)).
+    { intros ths. destruct I1 as [A B C D E]. constructor; cbn in *; auto. rewrite Hup. discriminate. }
+    destruct (j_owner j) as [i|]; [|exact I1].
+    destruct (get_thread i (threads s1)) as [[|[] rest]|]; try exact I1. apply Hth.
+Qed.
+
+Lemma Inv1_boot : forall s l nid, Inv1 s -> Inv1 (boot s l nid).
+Proof.
+  intros s l nid I. constructor; cbn.
+  - reflexivity.
+  - intros _. eauto.
+  - intros c Hc. destruct (i1_dat s I c Hc) as (? & ? & ?). repeat (split; [assumption|]).
+    apply from_hist_mono. assumption.
+  - intros j Hj. inversion Hj; subst j. split; [reflexivity|].
+    unfold job_ok, new_job. cbn. split; [apply slots_new|].
+    intros g n e H. exfalso. eapply slots_new_unfilled. exact H.
+  - discriminate.
+Qed.
+
+Lemma Inv1_step : forall s e, Inv1 s -> Inv1 (step s e).
+Proof.
+  intros s e I. destruct e as [i o|i| |k| |]; unfold step; cbn [step_].
+  - (* EStart *)
+    destruct (up s) eqn:Hup; [|exact I].
+    destruct (get_thread i (threads s)); [exact I|].
+    destruct I as [A B C D E]. constructor; cbn; auto. rewrite Hup. discriminate.
+  - (* EStep *)
+    destruct (get_thread i (threads s)) as [[|m rest]|] eqn:Hth; try exact I.
+    apply Inv1_exec; assumption.
+  - (* ETask *)
+    destruct (lock s) eqn:Hl; [exact I|]. destruct (pending s) as [|p] eqn:Hp; [exact I|].
+    assert (Hup : up s = true).
+    { destruct (up s) eqn:E; [reflexivity|]. destruct (i1_down s I E) as (_ & _ & H0). congruence. }
+    constructor; cbn.
+    + apply (i1_broken s I).
+    + intros _. apply (i1_hist s I Hup).
+    + apply (i1_dat s I).
+    + intros j Hj. inversion Hj; subst j. split; [exact Hup|].
+      change (job_ok (w_lock (w_pending s p) (Some (new_job None (live_ s) (length (hist s)))))
+                     (new_job None (live_ (w_lock (w_pending s p) (Some (new_job None (live_ s) (length (hist s)))))) (length (hist s)))).
+      apply job_ok_new.
+    + rewrite Hup. discriminate.
+  - (* EPersist *)
+    destruct (lock s) as [j|] eqn:Hl; [|exact I]. apply Inv1_persist; assumption.
+  - (* EKill *)
+    destruct (up s) eqn:Hup; [|exact I]. constructor; cbn.
+    + apply (i1_broken s I).
+    + discriminate.
+    + apply (i1_dat s I).
+    + discriminate.
+    + auto.
+  - (* ERestart *)
+    destruct (up s) eqn:Hup; cbn; [exact I|]. rewrite (i1_broken s I). cbn.
+    unfold restart. destruct (dat (fs s)) as [c|] eqn:Hd.
+    + destruct (i1_dat s I c Hd) as (Hc & _ & _). rewrite Hc.
+      destruct (load (f_doc c) (next_id s)) as [l nid]. apply Inv1_boot. exact I.
+    + apply Inv1_boot. exact I.
+Qed.
+
+Lemma Inv1_run : forall evs, Inv1 (run init evs).
+Proof. intros. apply run_invariant; [apply Inv1_step|apply Inv1_init]. Qed.
+
+(* C06_atomic: at every instant of every schedule (kills and restarts included) nsqd.dat is
+   absent or a completely written, fsynced document; its topic set is the set of
+   non-ephemeral topics of a live state the daemon passed through, each entry is the
+   persisted form of a topic as it was in a live state the daemon passed through; and
+   no restart ever finds an undecodable file. *)
+Lemma atomic_all : forall evs,
+  let s := run init evs in
+  broken s = false /\
+  (dat (fs s) = None \/
+   exists c, dat (fs s) = Some c /\ complete c = true /\ f_synced c = true /\ from_hist (hist s) (f_doc c)).
+Proof.
+  intros evs s. pose proof (Inv1_run evs) as I. fold s in I. split; [apply (i1_broken s I)|].
+  destruct (dat (fs s)) as [c|] eqn:Hd; [right|left; reflexivity].
+  exists c. split; [reflexivity|]. apply (i1_dat s I c Hd).
+Qed.
